@@ -537,10 +537,15 @@ package zygo
 // an assignment through a selector ((set (arrayidx a [0]) 5), {a[0] = 5}) is an expression like
 // def and set: it leaves the assigned value (it used to leave nothing, see 9.3)
 //@ func (AssignInstr).Execute
-//@ C01,C02,C04 assert the-assigned-value-is-left @before call PushExpr[0]: arg0 == env.datastack && arg1 == rhs
 //@ ghost valueLeft := false @entry
-//@ ghost valueLeft := true @after call PushExpr[0]
+//@ ghost valueLeft := true @after call leaveValue[*]
 //@ C01,C02,C04 ensures an-assignment-has-a-value: r0 == nil ==> valueLeft
+//@ C01,C02,C04 assert leaves-what-it-assigned @before call leaveValue[*]: arg1 == env && arg2 == rhs
+//@ func (AssignInstr).leaveValue
+//@ ghost pushed := false @entry
+//@ ghost pushed := true @after call PushExpr[0]
+//@ C01,C02,C04 assert the-assigned-value-is-left @before call PushExpr[0]: arg0 == env.datastack && arg1 == rhs
+//@ C01,C02,C04 ensures success-leaves-the-value: (r0 == nil ==> pushed && err == nil) && (err != nil ==> r0 != nil)
 // mdef: every target slot is filled with a symbol before the value is compiled; the bind
 // instruction hands each one to BindSymbol, which dereferences it
 //@ func (*Generator).GenerateMultiDef
